@@ -1,4 +1,5 @@
 """C15 -- byte transforms invert exactly and match their definition."""
+import ast
 from .. import norm as N
 from .common import *
 from . import C10, C01
@@ -39,6 +40,84 @@ def transform_rows(ctx, cls, meth):
         g = frozenset(N.canon_lids(N.rebuild(c, m)) for c in p.guards() if not any(x[0] in ("subres",) for x in N.walk(c)))
         rows.add((g, N.canon_lids(N.rebuild(out, m))))
     return fi, rows
+
+
+def rotl_shape(t):
+    """t == ((X << A) & 255) | (Y >> B), modulo operand order of | and & -> (X, A, Y, B); else None."""
+    if not (t and t[0] == "bin" and t[1] == "|"):
+        return None
+    for hi, lo in ((t[2], t[3]), (t[3], t[2])):
+        if not (lo[0] == "bin" and lo[1] == ">>" and hi[0] == "bin" and hi[1] == "&"):
+            continue
+        for sh, mask in ((hi[2], hi[3]), (hi[3], hi[2])):
+            if mask == N.const(255) and sh[0] == "bin" and sh[1] == "<<":
+                return sh[2], sh[3], lo[2], lo[3]
+    return None
+
+
+def rot_direction(ctx, M, fp, rows):
+    """R6: within a group (big-endian bit string) rotating left by 8q+r bits makes result byte j = (byte[j+q] << r) & 0xff | byte[j+q+1] >> (8-r)."""
+    rule = "C15.R6"
+    ci = M.cls("ProcessRotateLeft")
+    tab = ci.assigns.get("precomputed_single_rotations")
+    if tab is None:
+        raise AnalysisError("anchor vanished: ProcessRotateLeft.precomputed_single_rotations")
+    m = control_model("def table():\n    return " + ast.unparse(tab) + "\n")
+    from ..core import Ctx
+    c2 = Ctx("C15", ctx.tier, m.root, model=m)
+    ps = paths_of(c2, m.function("table"))
+    t = N.canon_lids(ps[0].retval) if len(ps) == 1 and ps[0].retval else None
+    ok = False
+    why = "not a dict comprehension of list comprehensions"
+    if t and t[0] == "comp" and t[1] == "dict" and t[2][0] == "kv" and t[2][2][0] == "comp" and t[2][2][1] == "list":
+        key, inner = t[2][1], t[2][2]
+        outer_iter, inner_iter = t[3][0][0], inner[3][0][0]
+        sh = rotl_shape(inner[2])
+        why = "entry formula is not (i << amount) & 0xff | i >> (8 - amount)"
+        if sh:
+            X, A, Y, B = sh
+            i = ("idx", inner[4][0])
+            ok = X == i and Y == i and A == key and B == N.mk_add(N.const(8), key, -1) \
+                and outer_iter == ("call", ("free", "range"), (N.const(1), N.const(8)), ()) and inner_iter == ("call", ("free", "range"), (N.const(256),), ())
+    ctx.ob(rule, "ProcessRotateLeft", ok, "the single-byte table maps amount 1..7 to [rotl8(i, amount) for i in 0..255]: high part shifted left by the amount, low part shifted right by 8 - amount (%s)" % ("ok" if ok else why),
+           key="table direction", loc="%s:%d" % (ci.relpath, tab.lineno))
+    # bit-pair kernel of _parse (R2 ties _build to it with the amount negated)
+    amt = ("eval", N.selfattr("amount"), CTX)
+    grp = ("eval", N.selfattr("group"), CTX)
+    namt = ("mod", amt, N.mk_mul(N.const(8), grp))
+    r = N.mk_mod(namt, N.const(8))
+    found = 0
+    for g, term in rows:
+        for x in N.walk(term):
+            sh = rotl_shape(x) if x[0] == "bin" and x[1] == "|" else None
+            if not sh:
+                continue
+            found += 1
+            X, A, Y, B = sh
+            ok = A == r and B == N.mk_add(N.const(8), r, -1) and X[0] == "sub" and Y[0] == "sub" and X[1] == Y[1]
+            k1 = [u for u in N.walk(X[2]) if u[0] == "unpack"] if ok else []
+            k2 = [u for u in N.walk(Y[2]) if u[0] == "unpack"] if ok else []
+            ok = ok and len(k1) == 1 and len(k2) == 1 and k1[0][1] == k2[0][1] and k1[0][2] == 0 and k2[0][2] == 1 and N.subst(X[2], {k1[0]: ("k",)}) == N.subst(Y[2], {k2[0]: ("k",)})
+            if ok:
+                pairs = [u for u in N.walk(k1[0][1]) if u[0] == "tuple" and len(u[1]) == 2]
+                ok = bool(pairs)
+                for pr in pairs[:1]:
+                    first, second = pr[1]
+                    q = ("bin", "//", namt, N.const(8))
+                    ok = first[0] == "mod" and second[0] == "mod" and first[2] == grp and second[2] == grp and N.contains(first[1], q) and second[1] == N.mk_add(first[1], N.const(1))
+            ctx.ob(rule, fp, ok, "the bit-pair kernel takes the high part from byte j+q shifted left by r = amount %% 8 and the low part from the following byte (cyclically within the group) shifted right by 8 - r", key="pair direction")
+    if not found:
+        ctx.ob(rule, fp, False, "bit-pair kernel (X << r) & 0xff | Y >> (8 - r) not found in ProcessRotateLeft._parse", key="pair direction")
+    # byte-index kernel: result byte j is byte (j + q) mod group
+    q = ("bin", "//", namt, N.const(8))
+    idxrows = [term for g, term in rows if N.contains(term, q) and not any(u[0] == "bin" and u[1] in ("<<", ">>") for u in N.walk(term))]
+    ok = bool(idxrows) and all(any(u[0] == "mod" and u[2] == grp and N.contains(u[1], q) and N.mk_add(u[1], q, -1)[0] == "idx" for u in N.walk(term)) for term in idxrows)
+    ctx.ob(rule, fp, ok, "the whole-byte kernel moves byte (j + amount // 8) mod group to position j", key="byte direction")
+    tabrows = [term for g, term in rows if any(u[0] == "attr" and u[2] == "precomputed_single_rotations" for u in N.walk(term))]
+    ok = bool(tabrows) and all(any(u[0] == "sub" and u[1][0] == "sub" and u[1][1][0] == "attr" and u[1][1][2] == "precomputed_single_rotations" and u[1][2] == namt and u[2][0] == "elem" and u[2][1] == IN
+                                  for u in N.walk(term)) for term in tabrows)
+    ctx.ob(rule, fp, ok, "the single-byte kernel looks each data byte up in the table row of the normalised amount", key="table lookup")
+    ctx.floor(rule, 4)
 
 
 def run(ctx):
@@ -86,7 +165,10 @@ def run(ctx):
     C01.tunnel_checks(sub, "C15.R4")
     for o in sub.obligations:
         ctx.ob(o.rule, o.where, o.ok, o.what, key=o.key, loc=o.loc, detail=o.detail)
-    ctx.floor("C15.R4", 3)
+    ctx.floor("C15.R4", 4)
+
+    # ---- R6 direction: the documented transform is a rotation to the LEFT
+    rot_direction(ctx, M, fp, a)
 
     if ctx.tier == "thorough":
         from .. import interval
